@@ -1,12 +1,15 @@
 package props
 
 import (
+	"bytes"
 	"fmt"
 	"go/ast"
+	"go/parser"
 	"go/token"
 	"go/types"
 	"sort"
 	"strings"
+	"verif/internal/obs"
 
 	"github.com/dave/dst"
 	"github.com/dave/dst/decorator"
@@ -258,6 +261,7 @@ func runC09(c *fw.Ctx) {
 					}
 				}
 			}
+			c09PackageGoast(c, id, p)
 			if i < 3 {
 				c.Sample(map[string]interface{}{"case": id, "files": srcs})
 			}
@@ -418,3 +422,90 @@ func c09Shadowed(af *ast.File, id *ast.Ident, info *types.Info, names map[string
 }
 
 var _ = refl.TypeName
+
+// c09PackageGoast decorates the files of a generated program together, as one *ast.Package, with the
+// syntax-only resolver, and compares every identifier's path with the same file decorated alone.
+// Later files carry a //line directive that names the first file (generated-code style), so a file
+// cannot be told from its neighbours by reported file names.
+func c09PackageGoast(c *fw.Ctx, id string, p *gen.Program) {
+	if len(p.Files) < 2 {
+		return
+	}
+	names := map[string]string{}
+	for _, l := range gen.Libs {
+		names[l.ImportPath] = l.Name
+	}
+	srcs := map[string][]byte{}
+	var order []string
+	for k, fs := range p.Files {
+		for _, nm := range fs.Naming {
+			if nm == "." {
+				return // outside the syntax-only resolver's domain
+			}
+		}
+		src := []byte(fs.Src)
+		if k > 0 {
+			i := bytes.IndexByte(src, '\n')
+			if i < 0 {
+				return
+			}
+			src = append(append(append([]byte{}, src[:i+1]...), []byte("\n//line "+p.Files[0].Name+":1\n")...), src[i+1:]...)
+		}
+		srcs[fs.Name] = src
+		order = append(order, fs.Name)
+	}
+	paths := func(df *dst.File) []string {
+		var out []string
+		dst.Inspect(df, func(n dst.Node) bool {
+			if idn, ok := n.(*dst.Ident); ok {
+				out = append(out, idn.Name+"@"+idn.Path)
+			}
+			return true
+		})
+		return out
+	}
+	fset := token.NewFileSet()
+	apkg := &ast.Package{Name: "self", Files: map[string]*ast.File{}}
+	alone := map[string][]string{}
+	for _, name := range order {
+		af, err := parser.ParseFile(fset, name, srcs[name], parser.ParseComments)
+		if err != nil {
+			return
+		}
+		apkg.Files[name] = af
+		fs1 := token.NewFileSet()
+		af1, err := parser.ParseFile(fs1, name, srcs[name], parser.ParseComments)
+		if err != nil {
+			return
+		}
+		df1, err := decorator.NewDecoratorWithImports(fs1, "ex.com/self-goast", goast.WithResolver(simple.New(names))).DecorateFile(af1)
+		if err != nil {
+			return // refused (two imports of one name): covered by the per-file comparison
+		}
+		alone[name] = paths(df1)
+	}
+	var dn dst.Node
+	var err error
+	if sig, detail := fw.Try(func() {
+		dn, err = decorator.NewDecoratorWithImports(fset, "ex.com/self-goast", goast.WithResolver(simple.New(names))).DecorateNode(apkg)
+	}); sig != "" {
+		c.Violate("decorate-panic", sig, id+" [package+goast]\n"+detail, "")
+		return
+	}
+	if err != nil {
+		c.Violate("goast-error", "goast-error:package", id+": every file decorates alone, the package does not: "+err.Error(), "")
+		return
+	}
+	for _, name := range order {
+		df := dn.(*dst.Package).Files[name]
+		if df == nil {
+			continue
+		}
+		got := paths(df)
+		if i := obs.FirstDiff(got, alone[name]); i >= 0 {
+			c.Violate("goast-differs", "goast-differs:package-vs-file", fmt.Sprintf("%s: %s identifier #%d is %q when the package is decorated, %q when the file is decorated alone", id, name, i, at(got, i), at(alone[name], i)), string(srcs[name]))
+			return
+		}
+	}
+	c.Count("packages_decorated_with_goast", 1)
+}
